@@ -21,7 +21,7 @@ def build_stream(case):
         rnd = random.Random(seed * 1000003 + i)
         spec = (tuple(rnd.choice(idents)), rnd.randint(lo, hi), rnd.getrandbits(32), rnd.choice(checksums), rnd.random() < 0.7)
         ro = G.build_readout(spec)
-        if lo == 0 and hi == 1 and seed % 3 == 0 and i % 5 == 2:
+        if lo == 0 and hi == 1 and seed % 3 == 0 and i % 5 == 2 and i < 150:
             # a readout with one very long (but legal) data line, e.g. a hex-coded text message
             ident_line = ro[: ro.index(b"\n") + 1]
             long_line = b"0-0:96.13.0(" + bytes(rnd.choice(b"0123456789ABCDEF") for _ in range(rnd.choice([1000, 1030, 1100, 2048, 4000]))) + b")\r\n"
@@ -36,6 +36,10 @@ def build_stream(case):
 
 def chunks_of(stream: bytes, cuts, readouts):
     kind = cuts[0]
+    if len(stream) > 60000 and kind == "fixed" and cuts[1] < 48:
+        # the reader re-scans an unfinished line on every call (quadratic in the line length for tiny chunks): keep the
+        # harness affordable on big streams - tiny chunks are exercised on the smaller ones
+        cuts = ("fixed", 48 + cuts[1], cuts[2])
     if kind == "readout-len":  # fixed-size chunks of (length of the first readout + k)
         size = max(1, len(readouts[0]) + cuts[1])
         return GH.split(stream, ("fixed", size, cuts[2]))
@@ -187,7 +191,7 @@ def build() -> Check:
             "Every readout is < 8000 bytes ('well below 8 KiB'); identification text contains neither '/' nor '!' (IEC 62056-21).",
         ],
         clauses=[
-            HypClause("clean", case_st, oracle, quick=2500, thorough=40000),
-            HypClause("interleaved", interleaved_case_st, interleaved_oracle, quick=1200, thorough=25000, doc="two reader instances fed alternately, each with its own clean stream"),
+            HypClause("clean", case_st, oracle, quick=1800, thorough=40000),
+            HypClause("interleaved", interleaved_case_st, interleaved_oracle, quick=800, thorough=25000, doc="two reader instances fed alternately, each with its own clean stream"),
         ],
     )
